@@ -95,7 +95,23 @@ theorem reward_bootstrap_exact (γ : α) (V : O → α) (r : Raw O α) :
     rewardOf γ V (vecOut r) =
       if r.truncated && !r.terminated then r.reward + γ * V r.obs else r.reward := by
   unfold rewardOf vecOut
-  cases r.terminated <;> cases r.truncated <;> simp
+  cases r.terminated <;> cases r.truncated <;> cases r.staleTerminal <;> simp
+
+/-- **The `done` guard**: the same exact rule holds for a vectorised environment that writes
+`TimeLimit.truncated` / `terminal_observation` only when an episode ends, fed by sub-environments that return one
+info dict object for their whole life — the stale `TimeLimit.truncated = True` and stale `terminal_observation`
+of an earlier truncated episode, still visible on later steps, never change a reward, whatever they are. -/
+theorem reward_bootstrap_exact_lazy (γ : α) (V : O → α) (r : Raw O α) :
+    rewardOf γ V (vecOutLazy r) =
+      if r.truncated && !r.terminated then r.reward + γ * V r.obs else r.reward := by
+  unfold rewardOf vecOutLazy
+  cases r.terminated <;> cases r.truncated <;> cases r.staleTerminal <;> cases r.staleTimeLimit <;> simp
+
+/-- Hence the stored reward does not depend on what the reused info dict still carries. -/
+theorem stale_info_keys_ignored (γ : α) (V : O → α) (r : Raw O α) (st : Option O) (sf : Bool) :
+    rewardOf γ V (vecOutLazy { r with staleTerminal := st, staleTimeLimit := sf }) = rewardOf γ V (vecOutLazy r) ∧
+      rewardOf γ V (vecOut { r with staleTerminal := st, staleTimeLimit := sf }) = rewardOf γ V (vecOut r) := by
+  simp [reward_bootstrap_exact_lazy, reward_bootstrap_exact]
 
 /-- truncated, not terminated ⇒ bootstrapped with the value of the *terminal* observation (not of the
 observation of the next episode, which is what `new_obs` holds). -/
@@ -413,7 +429,7 @@ end actions
 section examples
 
 /-- two environments; observations are tags, actions and scalars integers -/
-def exOut (o : ℕ) (r : ℤ) (term trunc : Bool) (reset : ℕ) : VOut ℕ ℤ := vecOut ⟨o, r, term, trunc, reset⟩
+def exOut (o : ℕ) (r : ℤ) (term trunc : Bool) (reset : ℕ) : VOut ℕ ℤ := vecOut ⟨o, r, term, trunc, reset, none, false⟩
 
 /-- step 0: env 0 truncated (obs 11 → reset 20), env 1 runs on (obs 111) -/
 def exStep0 : StepIn ℕ ℤ ℤ :=
@@ -477,14 +493,19 @@ example : returnsOf (3 : ℤ) 1 (collectRollout (3 : ℤ) exV id exCarry [exA, e
 
 /-- the hypotheses of `truncation_is_bootstrapped_not_cut` at `s = 1`, `t = 2`, `e = 0` -/
 example : doneAt [exA, exB, exC] 0 1 = false ∧ doneAt [exA, exB, exC] 0 2 = true ∧
-    exC.out 0 = vecOut (⟨22, 5, false, true, 30⟩ : Raw ℕ ℤ) ∧
+    exC.out 0 = vecOut (⟨22, 5, false, true, 30, none, false⟩ : Raw ℕ ℤ) ∧
     (exCarry :: [exA, exB, exC].map carryOf)[2]?.isSome ∧ [exA, exB, exC][2]?.isSome := by
   refine ⟨by decide, by decide, rfl, by decide, by decide⟩
 
 /-- the hypotheses of `td_residual_terminated` at `t = 1`, `e = 1` -/
-example : exB.out 1 = vecOut (⟨112, 2, true, false, 120⟩ : Raw ℕ ℤ) ∧
+example : exB.out 1 = vecOut (⟨112, 2, true, false, 120, none, false⟩ : Raw ℕ ℤ) ∧
     (List.range 3).map (tdAt (3 : ℤ) exV exCarry [exA, exB, exC] 1) = [450, -220, 487] := by
   refine ⟨rfl, by decide⟩
+
+/-- a running step whose reused info dict still says "truncated, terminal observation 11": not bootstrapped -/
+example : rewardOf (3 : ℤ) exV (vecOutLazy ⟨21, 1, false, false, 0, some 11, true⟩) = 1 ∧
+    (vecOutLazy (⟨21, 1, false, false, 0, some 11, true⟩ : Raw ℕ ℤ)).timeLimit = true ∧
+    (vecOutLazy (⟨21, 1, false, false, 0, some 11, true⟩ : Raw ℕ ℤ)).terminalObs = some 11 := by decide
 
 example : (2 : ℚ)⁻¹ * 2 = 1 ∧ ((-2 : ℚ) ≤ 6) := by norm_num
 
